@@ -54,6 +54,15 @@ func c06junk(kind string, forBinary bool) ([]byte, bool) {
 	return nil, false
 }
 
+// c06untouched: a binary form that was rejected must leave nothing behind in the receiver ("rejected with
+// an error instead of being stored" — a caller that keeps the value after the error would hold a tree
+// made of an unvalidated roster or root)
+func c06untouched(cs *h.Case, t *onet.Tree, op string) {
+	if t.Roster != nil || t.Root != nil || !t.ID.IsNil() {
+		cs.Fail("rejected-binary-form-partly-stored", "BinaryUnmarshaler returned an error but left a roster / root / id of the rejected form in the receiver — "+op)
+	}
+}
+
 func (cc *c06case) moreOps(cs *h.Case, tk []string, op string, optRoster func(string) (*onet.Roster, bool)) string {
 	atoi := func(s string) (int, bool) {
 		v, err := strconv.ParseUint(s, 10, 31)
@@ -108,6 +117,7 @@ func (cc *c06case) moreOps(cs *h.Case, tk []string, op string, optRoster func(st
 		}
 		t := &onet.Tree{}
 		if err := t.BinaryUnmarshaler(suite, buf); err != nil {
+			c06untouched(cs, t, op)
 			return c06errClass(err)
 		}
 		cs.Fail("junk-accepted", "BinaryUnmarshaler accepted bytes that are no binary form of a tree — "+op)
@@ -153,6 +163,7 @@ func (cc *c06case) moreOps(cs *h.Case, tk []string, op string, optRoster func(st
 			if !bad {
 				cs.Fail("wellformed-rejected", "a binary form whose roster fits the description was rejected: "+err.Error()+" — "+op)
 			}
+			c06untouched(cs, t2, op)
 			return c06errClass(err)
 		}
 		if bad {
